@@ -50,8 +50,13 @@ def identity(ctx, K, with_clock):
     dead = set()   # objects already seen not running: must stay so
     events = EVENTS if with_clock else [e for e in EVENTS if e != "clock_step"]
     log = []
-    with k.installed():
+    import contextlib
+
+    with k.installed(), contextlib.ExitStack() as stack:
         objs.append((psutil.Process(PID), 0))
+        if ctx.flag("first_object_inside_oneshot_block"):      # the history runs inside `with objs[0].oneshot():`
+            stack.enter_context(objs[0][0].oneshot())
+            log.append("with obj0.oneshot():")
         for i in range(K):
             ev = ctx.choice(f"ev{i}", events)
             log.append(ev)
